@@ -8,7 +8,7 @@
    (fixes/c12-task-done.patch, F10); the pinned variant is refuted below. *)
 From BP Require Import Base.Prelude Model.Channel.
 From BP Require Import Proofs.ChannelP1 Proofs.ChannelP2 Proofs.ChannelP3 Proofs.ChannelP4 Proofs.ChannelP5
-                       Proofs.ChannelP6 Proofs.ChannelP7.
+                       Proofs.ChannelP6 Proofs.ChannelP7 Proofs.ChannelP8.
 Local Open Scope nat_scope.
 
 (* every run of the event loop (one ready handle at a time, each run to its next suspension point) is in Reach *)
@@ -63,6 +63,19 @@ Theorem C12_no_blocked_receiver : forall c s, Reach c s -> cfg_nocancel c = true
   forall T, In T (tasks s) -> blocked_receiver T = false /\ (exists o, st T = Fin o) \/ st T = BlkPut.
 Proof. exact no_blocked_receiver. Qed.
 Print Assumptions C12_no_blocked_receiver.
+
+(* the same with cancellation / timeouts of any of the configuration's tasks, pinned or repaired code: the channel stays
+   usable — after close no receiver is left blocked.  ([cfg_cancel_ok]: every cancel() names a task of the configuration,
+   i.e. nobody cancels the internal _flush_queue task, which user code cannot reach.) *)
+Theorem C12_no_blocked_receiver_cancel : forall c s, Reach c s -> cfg_cancel_ok c = true -> closed s = true ->
+  quiescent s = true -> sumf (is_st BlkGet) (tasks s) = 0.
+Proof. exact no_blocked_general. Qed.
+Print Assumptions C12_no_blocked_receiver_cancel.
+
+Theorem C12_quiescent_tasks_cancel : forall c s, Reach c s -> cfg_cancel_ok c = true -> closed s = true -> quiescent s = true ->
+  forall T, In T (tasks s) -> (exists o, st T = Fin o) \/ st T = BlkPut.
+Proof. exact no_blocked_general_tasks. Qed.
+Print Assumptions C12_quiescent_tasks_cancel.
 
 (* after close *)
 Theorem C12_closed_stable : forall s t s', step s t = Some s' -> closed s = true -> closed s' = true.
@@ -124,9 +137,10 @@ Theorem C12_cancel_strands_refuted : exists c s x,
 Proof. exact cancel_strands_refuted. Qed.
 Print Assumptions C12_cancel_strands_refuted.
 
-(* What is NOT proved: with cancellation, that no receiver stays blocked at quiescence (it holds on every schedule
-   explored, and the invariants B/D behind it are proved for all configurations in Proofs/ChannelP3.v, but the
-   sentinel accounting C/E is only proved without cancellation); the wait_for timer is modelled as a cancel(). *)
+(* What is NOT proved (and cannot be, see the refutation above): with cancellation, that every item sent before close()
+   is received.  Modelling limits: the wait_for timer is a cancel() whose target reports TimeoutError; asyncio itself
+   (event loop, Task.__step, Future callbacks) is mirrored by the transition system and tied to the real classes by the
+   stepping loop, not verified. *)
 
 (* non-vacuity *)
 Example C12_ex_quiescent :
@@ -141,6 +155,8 @@ Proof. eexists. split; [vm_compute; reflexivity|]. left. reflexivity. Qed.
 Example C12_ex_lost_fixed :
   received (final (cfg_f10_loss false) [0; 1; 2; 0; 3; 4]) = [Msg 2 0; Msg 2 1].
 Proof. vm_compute. reflexivity. Qed.
+Example C12_ex_cancel_ok : cfg_cancel_ok cfg_k6 = true /\ cfg_cancel_ok (cfg_f10 true) = true.
+Proof. vm_compute. auto. Qed.
 Example C12_ex_send_after_close :
   outcome_of (final (mkC 0 false [([UClose], false); ([USend], false)]) [0; 1]) 1 = Some OClosed.
 Proof. vm_compute. reflexivity. Qed.
